@@ -430,8 +430,11 @@ func transportScenario(name string, pollers int, senders [][]int, discard bool, 
 
 func scenarios(tier string) []*vx.Scenario {
 	big := 3 // preemption bound for the scenarios whose unbounded space does not fit the quick budget
+	// thorough: iterative preemption bounding up to 8 for the spaces that do not fit the budget unbounded
+	// (every completed bound is reported; an unbounded run that hits its deadline has completed none)
+	deep := 8
 	if tier == "thorough" {
-		big = -1
+		big = deep
 	}
 	s := []*vx.Scenario{
 		pollQueueScenario("pollQueue/1c-1p", 1, [][]int{{1}}, false, -1),
@@ -453,13 +456,13 @@ func scenarios(tier string) []*vx.Scenario {
 	if tier == "thorough" {
 		s = append(s,
 			pollQueueScenario("pollQueue/2c-3p", 2, [][]int{{1}, {1}, {1}}, false, -1),
-			pollQueueScenario("pollQueue/2c-2p-twice-getter", 2, [][]int{{1, 1}, {1}}, true, -1),
+			pollQueueScenario("pollQueue/2c-2p-twice-getter", 2, [][]int{{1, 1}, {1}}, true, deep),
 			pollQueueScenario("pollQueue/1c-3p-twice", 1, [][]int{{1, 1}, {1, 1}, {1}}, false, -1),
-			packetQueueScenario("packetQueue/3p-closer", [][]int{{1}, {2}, {1, 1}}, true, false, -1),
-			packetQueueScenario("packetQueue/3p-twice", [][]int{{1, 1}, {2, 1}, {1}}, false, false, -1),
-			packetQueueScenario("packetQueue/2p-reset-closer", [][]int{{1, 1}, {1}}, true, true, -1),
-			transportScenario("transport/2pollers-2senders", 2, [][]int{{1}, {1, 1}}, false, -1),
-			transportScenario("transport/2pollers-2senders-discard", 2, [][]int{{1}, {1}}, true, -1),
+			packetQueueScenario("packetQueue/3p-closer", [][]int{{1}, {2}, {1, 1}}, true, false, deep),
+			packetQueueScenario("packetQueue/3p-twice", [][]int{{1, 1}, {2, 1}, {1}}, false, false, deep),
+			packetQueueScenario("packetQueue/2p-reset-closer", [][]int{{1, 1}, {1}}, true, true, deep),
+			transportScenario("transport/2pollers-2senders", 2, [][]int{{1}, {1, 1}}, false, deep),
+			transportScenario("transport/2pollers-2senders-discard", 2, [][]int{{1}, {1}}, true, deep),
 			transportScenario("transport/1poller-3senders", 1, [][]int{{1}, {1}, {2}}, false, -1),
 		)
 	}
@@ -470,7 +473,7 @@ func main() {
 	vx.Main(vx.Config{
 		Property: "C19",
 		Level:    "model_checking",
-		Rule: "every interleaving (happens-before pruned, no preemption bound unless a cap is reported) of 1-2 consumers with 1-3 producers over the real pollQueue, the real packetQueue " +
+		Rule: "every interleaving (happens-before pruned; without preemption bound where the scenario list says -1, else iteratively to preemption bound 3 (quick) / 8 (thorough), completed bound reported) of 1-2 consumers with 1-3 producers over the real pollQueue, the real packetQueue " +
 			"(drainer, closer, reset) and the real polling.ServerTransport; an execution is non-trivial when its schedule deviates from the default run-until-blocked order",
 		Scenarios: scenarios,
 		Budget: func(tier string) time.Duration {
